@@ -17,8 +17,10 @@ PhaseTab == << <<"Pending", FALSE>>, <<"Running", FALSE>>, <<"Running", TRUE>>, 
 RevTab   == <<"t0.0", "t1.0", "t2.0">>
 Absent   == [present |-> FALSE]
 PodChoices == {Absent} \cup [present : {TRUE}, ph : 1..NPhases, term : BOOLEAN, rev : 1..3]
-\* strategy shapes: 0..MaxOrd+1 = RollingUpdate with block and that partition; MaxOrd+2 = RollingUpdate, no block; MaxOrd+3 = OnDelete
-Strats == 0..(MaxOrd + 3)
+\* strategy shapes: 0..MaxOrd+1 = RollingUpdate with block and that partition; MaxOrd+2 = RollingUpdate, no block;
+\* MaxOrd+3 = OnDelete; MaxOrd+4, MaxOrd+5 = OnDelete with a left-over rollingUpdate block (partition 0, 1)
+Strats == 0..(MaxOrd + 5)
+HasBlock == strat <= MaxOrd + 1 \/ strat >= MaxOrd + 4
 
 StdRevs == << [name |-> "t0.0", tmpl |-> "t0", num |-> 1, created |-> 100, owner |-> "self", marker |-> FALSE, sel |-> TRUE, rank |-> 1],
               [name |-> "t1.0", tmpl |-> "t1", num |-> 2, created |-> 200, owner |-> "self", marker |-> FALSE, sel |-> TRUE, rank |-> 2],
@@ -42,12 +44,12 @@ StatusRec ==
 
 SnOf ==
   [set |-> [name |-> "foo", cached |-> TRUE, replicas |-> rep, slots |-> slots, policy |-> pol,
-            strat |-> IF strat = MaxOrd + 3 THEN "OnDelete" ELSE "RollingUpdate",
-            ruBlock |-> strat <= MaxOrd + 1, partPresent |-> strat <= MaxOrd + 1,
-            part |-> IF strat <= MaxOrd + 1 THEN strat ELSE 0,
+            strat |-> IF strat >= MaxOrd + 3 THEN "OnDelete" ELSE "RollingUpdate",
+            ruBlock |-> HasBlock, partPresent |-> HasBlock,
+            part |-> IF strat <= MaxOrd + 1 THEN strat ELSE IF strat >= MaxOrd + 4 THEN strat - MaxOrd - 4 ELSE 0,
             tmpl |-> "t2", paused |-> FALSE, deleting |-> del, histLimit |-> 10, selectorOK |-> TRUE, gen |-> 2,
             status |-> StatusRec, claims |-> <<>>],
-   pods |-> PodSeq, revs |-> StdRevs, pvcs |-> {}, fresh |-> [exists |-> TRUE, sameUid |-> TRUE, deleting |-> del],
+   pods |-> PodSeq, revs |-> StdRevs, pvcs |-> {}, fresh |-> [exists |-> TRUE, sameUid |-> TRUE, deleting |-> del, rvSame |-> TRUE],
    cacheIntact |-> TRUE]
 
 Init == /\ rep \in 0..MaxRep /\ slots \in SUBSET Ords /\ pol \in {"OrderedReady", "Parallel"}
